@@ -226,7 +226,8 @@ impl PublishProperties {
                 }
                 PropertyType::SubscriptionIdentifier => {
                     let (id_len, id) = length(bytes.iter())?;
-                    cursor += 1 + id_len;
+                    // the property byte itself is already counted
+                    cursor += id_len;
                     bytes.advance(id_len);
                     subscription_identifiers.push(id);
                 }
